@@ -179,3 +179,55 @@ func VerifC16DeleteResource() {
 	_ = query.ErrNotFound
 	verifReach("end")
 }
+
+// VerifC16DefineShapes: cycle detection over every DAG on n concrete resources (every subset of the forward edges
+// of a fixed order) and every ordered pair: an edge is accepted exactly when it closes no cycle.
+func VerifC16DefineShapes() {
+	ctx := context.Background()
+	n := verifParam("nodes", 5)
+	d, _ := verifWriter()
+	ids := make([]ID, n)
+	for i := range ids {
+		ids[i] = ID{Type: "t", Key: string(rune('a' + i))}
+		verifAssume(d.DefineResource(ctx, ids[i]) == nil)
+	}
+	adj := make([][]bool, n)
+	for i := range adj {
+		adj[i] = make([]bool, n)
+	}
+	for i := 0; i < n; i++ {
+		for j := i + 1; j < n; j++ {
+			if verifBool("edge") {
+				adj[i][j] = true
+				verifAssume(d.relationshipTable.NewCreate().Entry(&Relationship{From: ids[i], Type: verifParent, To: ids[j]}).Exec(ctx, d.tx) == nil)
+			}
+		}
+	}
+	reach := make([][]bool, n)
+	for i := range reach {
+		reach[i] = append([]bool{}, adj[i]...)
+	}
+	for k := 0; k < n; k++ {
+		for i := 0; i < n; i++ {
+			for j := 0; j < n; j++ {
+				if reach[i][k] && reach[k][j] {
+					reach[i][j] = true
+				}
+			}
+		}
+	}
+	fi, ti := verifLen("from", 0, n-1), verifLen("to", 0, n-1)
+	verifAssume(fi != ti)
+	err := d.DefineRelationship(ctx, ids[fi], verifParent, ids[ti])
+	verifObserveBool("err", err != nil)
+	switch {
+	case adj[fi][ti]:
+		verifAssert("shapes-existing-is-noop", err == nil)
+	case reach[ti][fi]:
+		verifAssert("shapes-cycle-rejected", err != nil && errors.Is(err, graph.ErrCyclicDependency))
+	default:
+		verifAssert("shapes-acyclic-accepted", err == nil)
+	}
+	verifAssert("shapes-edge-present-iff-accepted", verifHasEdge(d, ids[fi], ids[ti]) == (adj[fi][ti] || err == nil))
+	verifReach("end")
+}
